@@ -1261,8 +1261,25 @@ def arr_method(it, a, name, args, kwargs, node):
             return list(a.values())
         if name == "get" and isinstance(a, dict) and is_concrete(args[0]):
             return a.get(*args)
+        if isinstance(a, dict) and name == "rename" and len(args) == 2 and is_concrete(args[0]) and is_concrete(args[1]):
+            # sciris odict.rename(oldkey, newkey): same position, same value (plain dicts stand for odicts in contract-built objects)
+            it.assumptions_log.add("sc.odict.rename(old, new) renames the key in place, keeping order and value")
+            if args[0] not in a:
+                raise _Raise("KeyError", node)
+            items = [((args[1] if k == args[0] else k), v) for k, v in a.items()]
+            a.clear()
+            a.update(items)
+            return None
         if all(is_concrete(x) for x in args) and is_concrete(a):
-            return getattr(a, name)(*args, **kwargs)
+            try:
+                return getattr(a, name)(*args, **kwargs)
+            except (ValueError, KeyError, IndexError) as e:
+                # a definite failure of a container operation on this path (list.remove / list.index of an absent element, ...):
+                # reaching it is an obligation unless the code under contract catches it
+                exc = type(e).__name__
+                if it.definedness and not it.caught_here(exc):
+                    it.oblige("defined", "%s@L%s" % (exc, getattr(node, "lineno", "?")), False, getattr(node, "lineno", None), note="%s: %s" % (exc, e))
+                raise _Raise(exc, node)
         if isinstance(a, dict) and name == "pop" and args and is_concrete(args[0]):
             # concrete key, values of any kind
             if args[0] in a:
